@@ -98,6 +98,8 @@ def check_case(case):
     try:
         for chain in case.get('chains', []):
             libx.select(chain)
+            if libx.call('gethash-' + chain, BitcoinMessage(text).GetHash)[1] != want or libx.call('gethash-' + chain, msg.GetHash)[1] != want:
+                raise Violation('digest-chain', 'the message digest changes with the selected chain (%s)' % chain)
             ver = RC.CHAINS[chain]['pubkey']
             mine = b58.check_encode(ver, H.h160(secp.ser_pub(P, comp)))
             if libx.call('verifymessage-own-' + chain, VerifyMessage, P2PKHBitcoinAddress(mine), msg, sig)[1] is not True:
@@ -167,7 +169,9 @@ def check_case(case):
     return {'nt': True, 'evals': 4 + len(negs) + nf, 'cls': cls, 'digest': digest([x, comp, text[:64], len(text)])}
 
 
-texts = st.one_of(st.sampled_from(['', 'a', 'hello', 'line\nbreak', 'héllo wörld ✓', '日本語のメッセージ', 'Ünïcödé' * 40, 'é' * 126, 'é' * 127, 'é' * 200]),
+texts = st.one_of(st.sampled_from(['Bitcoin Signed Message:\n', 'Bitcoin Signed Message:\nhello', '\x18Bitcoin Signed Message:\n', 'Bitcoin Signed Message:', '\n', ' ', '\x00',
+                                   '\ufeffbom', 'e\u0301', '\u00e9']),
+                  st.sampled_from(['', 'a', 'hello', 'line\nbreak', 'héllo wörld ✓', '日本語のメッセージ', 'Ünïcödé' * 40, 'é' * 126, 'é' * 127, 'é' * 200]),
                   st.text(max_size=40), st.text(alphabet=st.characters(min_codepoint=32, max_codepoint=0x2fff), min_size=1, max_size=300),
                   st.sampled_from([252, 253, 254, 300]).map(lambda k: 'y' * k))
 
